@@ -65,9 +65,9 @@ func (c16) Assumptions() []string {
 }
 func (c16) NumCases(tier string, _ int64) int {
 	if tier == "thorough" {
-		return 400
+		return 1200
 	}
-	return 48
+	return 96
 }
 func (c16) Exhaustive(string) bool { return false }
 func (c16) Floors(string) []runner.Floor {
